@@ -30,7 +30,7 @@ var ruleGroups = map[string]func(*Ctx){
 	"X1": rulesTransport, "X2": rulesTransport, "X3": rulesTransport, "W1": rulesTransport,
 	"G9": rulesExtra3, "P5": rulesExtra3, "M4": rulesExtra3, "M5": rulesExtra3, "X4": rulesExtra3, "B6": rulesExtra3, "G8": rulesExtra3,
 	"X7": rulesExtra4, "L5": rulesExtra4, "R3": rulesExtra4, "R4": rulesExtra4, "J2": rulesExtra4, "R5": rulesExtra4, "I10": rulesExtra4, "L4": rulesExtra4, "M6": rulesExtra4, "I8": rulesExtra4, "I9": rulesExtra4, "T6": rulesExtra4, "L3": rulesExtra4, "E6": rulesExtra4, "X5": rulesExtra4, "X6": rulesExtra4,
-	"P6": rulesExtra5, "P7": rulesExtra5, "X8": rulesExtra5, "G10": rulesExtra5, "G11": rulesExtra5, "R6": rulesExtra5,
+	"P6": rulesExtra5, "P7": rulesExtra5, "X8": rulesExtra5, "G10": rulesExtra5, "G12": rulesExtra5, "J3": rulesExtra5, "Q6": rulesExtra5, "J4": rulesExtra5, "I11": rulesExtra5, "G11": rulesExtra5, "R6": rulesExtra5,
 	"S1": rulesExtra2, "G7": rulesExtra2, "Q5": rulesExtra2, "T5": rulesExtra2, "I7": rulesExtra2,
 	"I6": rulesExtra, "T2": rulesExtra, "P4": rulesExtra, "B4": rulesExtra, "B5": rulesExtra, "T3": rulesExtra, "T4": rulesExtra,
 	"M1": rulesAddr, "M2": rulesAddr, "M3": rulesAddr, "D2": rulesAddr,
@@ -104,31 +104,31 @@ var propSpecs = map[string]*propSpec{
 	"C06": {ID: "C06", Rules: []ruleRef{only("I1", "kvstore"), only("I2", "kvstore"), only("I3", "kvstore"), {Rule: "I4"}, only("I6", "kvstore"), only("I8", "kvstore"), only("I9", "kvstore", "stores/operation"), only("I10", "kvstore")}, Controls: []string{"I2"},
 		Explanation: "Key-value index: view computed from Values() only (I1); descending scan with a first-seen guard whose tested, marked and written key are the same expression, PUT stores and DEL deletes (I2, I3); every log change refreshes the view (I4). View writes keyed verbatim (I8); operations are decoded into fresh values (I9).",
 		NotDecided:  "that the total order extends happens-before (dependency clocks)."},
-	"C07": {ID: "C07", Rules: []ruleRef{only("I1", "documentstore"), only("I2", "documentstore"), only("I3", "documentstore"), {Rule: "I4"}, {Rule: "D2"}, only("I6", "documentstore"), only("I8", "documentstore"), only("I9", "documentstore", "stores/operation"), only("I10", "documentstore")}, Controls: []string{"I2"},
+	"C07": {ID: "C07", Rules: []ruleRef{only("I1", "documentstore"), only("I2", "documentstore"), only("I3", "documentstore"), {Rule: "I4"}, {Rule: "D2"}, only("I6", "documentstore"), only("I8", "documentstore"), only("I9", "documentstore", "stores/operation"), only("I10", "documentstore"), {Rule: "I11"}}, Controls: []string{"I2", "I11"},
 		Explanation: "Document index: as C06 for PUT, DEL and every member of PUTALL (I1–I3), view refreshed on every change (I4); Delete reaches the append only through a presence test whose absent branch leaves with an error (D2). View writes keyed verbatim (I8); operations are decoded into fresh values (I9).",
 		NotDecided:  "Get's matching options and Query (string semantics, caller predicates)."},
-	"C08": {ID: "C08", Rules: []ruleRef{only("I1", "eventlogstore", "basestore"), {Rule: "I5"}, only("I6", "eventlogstore", "basestore"), {Rule: "I7"}, only("I10", "eventlogstore", "basestore")},
+	"C08": {ID: "C08", Rules: []ruleRef{only("I1", "eventlogstore", "basestore"), {Rule: "I5"}, only("I6", "eventlogstore", "basestore"), {Rule: "I7"}, only("I10", "eventlogstore", "basestore"), {Rule: "J4"}},
 		Explanation: "Event log listing is the log's total order (I1 for the event and base index); the slice the query reverses in place is freshly built by the installed index on every call (I5). The event-log store selects windows from the index listing only (I7); the event index interprets the whole order (I6).",
 		NotDecided:  "append-only/stability (dependency); exact windows (integer arithmetic over positions and amounts: a solver/symbolic problem, another technique family)."},
 	"C09": {ID: "C09", Rules: rr("B1", "B2", "B4", "B5", "B6"), Controls: []string{"B1"},
 		Explanation: "Every subscription to store-scoped event types on a bus that may be the instance-wide one either filters by the event's database address before any effect, or is made on a bus private to the store (B1); both receive paths route a heads message by the address it names before Sync (B2). Handler goroutines capture only per-iteration state (B4); each store gets the cache loaded for its own address on every path (B5); nothing written back into the caller's options chains per-store hooks (B6).",
 		NotDecided:  "interference through the shared IPFS node or the pubsub router."},
-	"C10": {ID: "C10", Rules: []ruleRef{{Rule: "L1"}, only("Q1", "rejected-join"), {Rule: "I4"}, {Rule: "T1"}, {Rule: "T2"}, {Rule: "T4"}, {Rule: "T6"}, {Rule: "L4"}}, Controls: []string{"L1", "T1", "T6"},
+	"C10": {ID: "C10", Rules: []ruleRef{{Rule: "L1"}, only("Q1", "rejected-join"), {Rule: "I4"}, {Rule: "T1"}, {Rule: "T2"}, {Rule: "T4"}, {Rule: "T6"}, {Rule: "L4"}, {Rule: "Q6"}}, Controls: []string{"L1", "T1", "T6"},
 		Explanation: "A failing Join stays inside the loop over fetched logs (L1); the task table's terminal state either does not block re-queuing, or is collected at load-end, or every fetch asks for exactly one entry so that a rejected log never holds a valid one (Q1); every Join is called on the store's own log, so each fetched log is verified and rejected on its own (T2); what is fetched under a hash is the content of that hash, never an announced object (T1); the view is refreshed after partial batches (I4). Memo discipline in Sync: marks only after verification, releasable, released on every path (T6); a multi-entry history refused at load is merged entry by entry (L4).",
 		NotDecided:  "which entries the dependency rejects."},
-	"C11": {ID: "C11", Rules: []ruleRef{only("Q1", "failed-fetch", "tasks[]"), {Rule: "Q2"}, {Rule: "G2"}, {Rule: "Q3"}, {Rule: "Q5"}, only("G7", "replicator"), {Rule: "S1"}},
+	"C11": {ID: "C11", Rules: []ruleRef{only("Q1", "failed-fetch", "tasks[]"), {Rule: "Q2"}, {Rule: "G2"}, {Rule: "Q3"}, {Rule: "Q5"}, {Rule: "Q6"}, only("G7", "replicator"), {Rule: "S1"}},
 		Explanation: "Task states are not absorbing while blocking (Q1); a worker whose slot wait fails removes a queued item and its task entry (Q2); goroutines draining a fetch-progress channel have no exit on ctx.Done() while the fetcher can still send (G2, with DF4 derived from the dependency). An empty fetch is a failed fetch (Q3, DF7); the idle counter is balanced on every worker path (Q5); fetch slots are released on every path (G7); no head is skipped on the strength of state recorded when an earlier request merely started (S1).",
 		NotDecided:  "behaviour of IPFS fetches under cancellation."},
-	"C12": {ID: "C12", Rules: []ruleRef{{Rule: "N2"}, {Rule: "N4"}, only("E3", "pubsub", "PayloadEmitter"), {Rule: "T1"}, {Rule: "T4"}, only("N1", "directchannel"), except("G7", "replicator"), {Rule: "T6"}}, Controls: []string{"N4", "N2", "T1", "T6"},
+	"C12": {ID: "C12", Rules: []ruleRef{{Rule: "N2"}, {Rule: "N4"}, only("E3", "pubsub", "PayloadEmitter"), {Rule: "T1"}, {Rule: "T4"}, only("N1", "directchannel"), except("G7", "replicator"), {Rule: "T6"}, {Rule: "G12"}}, Controls: []string{"N4", "N2", "T1", "T6", "G12"},
 		Explanation: "Allocation sizes decoded from a stream are bounded on both sides before use (N2, N1 on the frame-length conversion); every pointer decoded from a message or fetched entry (heads elements, GetIdentity() results, announced clocks) is nil-tested as a pointer before dereference, including through interface boxing (N4); the payload emitter's value type matches (E3); received entries cannot alter a log except by content address (T1). A received entry is re-encoded only after its clock and identity signatures were found present (N4d, DF8); only accepted heads reach the replicator (T4); frame slots are released on every path (G7). Clocks and identities of received heads are guarded wherever the heads flow, including helpers and access controllers (N4 e/f over T1's taint set); nothing is recorded about a head under its claimed hash before that hash was verified (T6).",
 		NotDecided:  "panics inside dependencies (JSON/CBOR decoders, libp2p)."},
 	"C13": {ID: "C13", Rules: []ruleRef{only("N1", "basestore"), {Rule: "N3"}, only("X3", "basestore"), only("P2", "snapshot", "queue"), {Rule: "X5"}, {Rule: "X6"}, {Rule: "X8"}}, Controls: []string{"N3", "X6", "X5", "X8"},
 		Explanation: "Both 16-bit length prefixes of the snapshot writer are guarded by a range test (N1); make-then-fill loops allocate with the length of the collection they range over (N3: GetQueue); writer and loader use the same prefix width and byte order (X3); the snapshot and queue keys are written and read under the same names (P2). The header's Len()/Heads() are read before the entries that are serialised (X5); frame buffers are filled by a full read — io.ReadFull or the UnixFS file's own Read, DF10 (X6). Nothing removes a block: a snapshot of an unchanged log is the very same file as the previous one, so freeing the replaced snapshot frees the new one (X8).",
 		NotDecided:  "round-trip equality of the decoded log."},
-	"C14": {ID: "C14", Rules: []ruleRef{{Rule: "M1"}, {Rule: "M2"}, {Rule: "M3"}, {Rule: "M4"}, {Rule: "M5"}, {Rule: "M6"}, only("A4", "baseorbitdb")}, Controls: []string{"M6"},
+	"C14": {ID: "C14", Rules: []ruleRef{{Rule: "M1"}, {Rule: "M2"}, {Rule: "M3"}, {Rule: "M4"}, {Rule: "M5"}, {Rule: "M6"}, only("A4", "baseorbitdb"), only("P4", "_manifest", "no-head-key-deletes")}, Controls: []string{"M6"},
 		Explanation: "No clock, randomness, process identity or map-iteration order flows into what is written on the address-determination cone (M1); the address prefix constant agrees between printing and parsing (M2); the local-presence test dominates the marker write in Create and store creation in Open, and its outcome can refuse (M3); controller and store type come from the manifest (A4 iii). The ipfs controller's Load assigns the decoded list on every successful path and the decoded manifest takes nothing from the opener (M4); address values are only built by the parser (M5). An address built by joining the manifest hash with the caller's name is only returned where its parsed root equals the manifest hash (M6); the manifest's access-controller address is put in place on every path to the store creation (A4).",
 		NotDecided:  "injectivity and equality of content addresses; string round trip."},
-	"C15": {ID: "C15", Rules: rr("J1", "J2"), Controls: []string{"J1", "J2"},
+	"C15": {ID: "C15", Rules: rr("J1", "J2", "J3"), Controls: []string{"J1", "J2"},
 		Explanation: "At every merge site the size handed to Join is the constant -1 or is, on every path, positive and bounded by the receiving log's length (J1); DF1 (Join slices values[len-size:] unguarded) is re-derived from the dependency.",
 		NotDecided:  "which entries survive trimming (that they are the most recent)."},
 	"C16": {ID: "C16", Rules: []ruleRef{{Rule: "E1"}, {Rule: "E2"}, except("E3", "accesscontroller"), {Rule: "E4"}, {Rule: "E5"}, {Rule: "E6"}}, Controls: []string{"E1", "E6"},
